@@ -1019,6 +1019,15 @@ for rel_, exp_ in UNSAFE_EXPECT.items():
 # C19 re-checks the bodies of the windowed filters as well (its argument needs them to be the audited, safe code)
 ENTRIES["C19"] = list(ENTRIES["C02"]) + [e_ for e_ in ENTRIES["C03"] if e_["name"] == "moving_mean"] + list(ENTRIES["C04"]) + [e_ for e_ in ENTRIES["C05"] if e_["name"] in ("convolve", "delay")]
 
+# ---- the modelled third-party crates are the audited versions --------------------------------------------------
+# The models of circular_buffer::CircularBuffer (bounded list), num_traits and dimensioned (map_unsafe, value_unsafe) were read
+# off these versions; Cargo.lock is what the harness builds against (it is copied next to the harness manifest).
+for pid_, crate_, ver_ in [(p_, "circular-buffer", "1.2.1") for p_ in ("C03", "C04", "C05", "C07", "C12", "C16", "C19", "C20")] + \
+                          [(p_, "num-traits", "0.2.19") for p_ in ("C03", "C05", "C06", "C11", "C13", "C14", "C15", "C16", "C18")] + [("C20", "dimensioned", "0.7.0")]:
+    ASSERTS.setdefault(pid_, []).append(dict(name="locked_%s" % crate_.replace("-", "_"), file=REPO + "/Cargo.lock",
+        must=[r'name = "%s"\nversion = "%s"\nsource = "registry' % (re.escape(crate_), re.escape(ver_))],
+        message="Cargo.lock no longer pins %s %s (the version whose behaviour the model assumes)" % (crate_, ver_)))
+
 # ---- API-surface inventory of every translated file -------------------------------------------------------
 # The obligations above re-read the bodies they know about.  What they cannot see is a NEW entry point or a replaced
 # dependency: an additional trait impl (`impl Filter<&T> for Schmitt`), an override inside a feature-gated impl that used to be
@@ -1036,7 +1045,7 @@ def file_inventory(path):
     return {"trait_impls": impls, "use_and_mod": uses, "reset_mut_overrides": len(re.findall(r"\bfn\s+reset_mut\b", txt))}
 def files_of(pid):
     fs = {e_["file"] for e_ in ENTRIES.get(pid, [])} | {a_["file"] for a_ in ASSERTS.get(pid, []) if a_.get("file")}
-    return sorted(f_ for f_ in fs if f_.startswith(REPO))
+    return sorted(f_ for f_ in fs if f_.startswith(REPO) and f_.endswith(".rs"))
 def write_inventory():
     import json
     inv = {}
